@@ -438,6 +438,15 @@ def huge_case(ctx, scen, i, reopen=True):
                     ['get m0 %s' % b'blob'.hex(), 'len m0', 'iter m0 values', 'put m0 %s 01' % b'blob'.hex(), 'stats m0', 'closeall', 'snap db'])
     pair(ctx, 'huge', i, segs, op_timeout=120)
 
+
+# ------------------------------------------------------------------ L_io: byte-level I/O traces (Io.v) against the crate
+def io_traces(ctx, n_hist, n_big, n_casc, n_sparse):
+    """every seek/read/write of every call, real crate (fine io-trace hook) vs the byte-level model Io.v, event by event"""
+    import scen_io as SI
+    rule0 = ctx.rule
+    SI.scen_io(ctx, n_hist, n_big, n_casc, n_sparse)
+    ctx.rule = rule0 + ' || ' + ctx.rule
+
 # ------------------------------------------------------------------ C01
 def scen_C01(ctx):
     ctx.rule = ('seeded random histories (put/get/delete/includes_key/len/is_empty) over small key universes, all five key types, '
@@ -482,6 +491,7 @@ def scen_C01(ctx):
         lines += ['closeall', 'snap db']
         pair(ctx, 'exhaustive_len%d' % L, bi, lines, op_timeout=60)
     parallel(exh, list(enumerate(batches)))
+    io_traces(ctx, ctx.scale(12, 120), ctx.scale(1, 6), ctx.scale(3, 20), ctx.scale(3, 20))
     if not ctx.quick:
         # long histories (1e5 calls), API level against the ideal map only (values small)
         def long(i):
@@ -787,6 +797,8 @@ def scen_C04(ctx):
         lines += ['iter m0 iter', 'closeall']
         pair(ctx, 'hist', i, lines, stats=g.stats, release=(not ctx.quick and i % 5 == 0))
     parallel(hist, range(ctx.scale(80, 600)))
+    # the scan at byte level: traversals of sparse tables with the fine io-trace on
+    io_traces(ctx, ctx.scale(6, 60), 0, 0, ctx.scale(16, 120))
 
 
 SCENARIOS['C04'] = scen_C04
@@ -1291,6 +1303,7 @@ def scen_C08(ctx):
     parallel(lambda i: cascade_case(ctx, 'C08', i), range(ctx.scale(24, 120)))
     # however large the offsets involved: a value beyond 2 MiB (4-byte varint fields), overwritten and followed by chained entries
     parallel(lambda i: huge_case(ctx, 'C08', i, reopen=False), range(ctx.scale(1, 4)), workers=4)
+    io_traces(ctx, 0, ctx.scale(1, 6), ctx.scale(12, 80), 0)
 
 
 SCENARIOS['C08'] = scen_C08
@@ -1723,6 +1736,8 @@ def scen_C15(ctx):
         if r.get('ok') and len(il) > b and il[a] != il[b]:
             ctx.violation('readonly_%d' % i, 'the files differ before and after a read-only session: `%s` vs `%s`' % (il[a][:200], il[b][:200]), lines)
     parallel(one, range(ctx.scale(80, 600)))
+    # read-only calls at byte level: no write, no set_len, no seek beyond the end of a file in the REAL trace of any read-only call
+    io_traces(ctx, ctx.scale(30, 300), ctx.scale(2, 12), ctx.scale(4, 30), ctx.scale(10, 80))
 
 
 def readonly_oracle(segments, workdir, release=False):
@@ -1825,6 +1840,7 @@ def scen_C18(ctx):
                 ctx.violation('twice_%d' % i, 'two executions of the same update history left different files: run A `%s`, run B (new process, read-only calls spliced in) `%s`'
                               % (il[len(a) - 1][:200], il[-1][:200]), a + ['# --- process 1 ---'] + b)
     parallel(one, range(ctx.scale(60, 400)))
+    io_traces(ctx, ctx.scale(10, 100), ctx.scale(1, 6), ctx.scale(2, 20), ctx.scale(8, 60))
 
 
 def twice_oracle(segments, workdir, release=False):
